@@ -112,6 +112,9 @@ func hintsOf(fn *ssa.Function) *funcHints {
 // nameAliases maps a name recorded in the hints that no longer exists in fn to
 // the name of the variable now at the recorded position.
 func nameAliases(name string, fn *ssa.Function) map[string]string {
+	if fn == nil {
+		return nil
+	}
 	old := nameHints[name]
 	if old == nil {
 		if o := fn.Origin(); o != nil {
